@@ -39,3 +39,118 @@ Example unclear_clone_refuted :
   program_ok [OpAssignSrc "path"; OpCloneNode "fill_path" "path"; OpEmit "fill_path";
               OpCloneNode "stroke_path" "path"; OpClear "stroke_path"; OpEmit "stroke_path"; OpEmitClone "path"] = false.
 Proof. reflexivity. Qed.
+
+(* ------------------------------------------------------------------------------------------------ *)
+(* General theorem: ANY straight-line program that only moves the id (no clone of an id or of a node, no copying push),
+   assigns the source id at most once and starts with no variable holding it, emits the source id at most once.      *)
+Definition no_holder (e : env) : Prop := forall x, e x = KEmpty.
+Definition one_holder (e : env) : Prop := forall x y, e x = KSrc -> e y = KSrc -> x = y.
+
+Lemma set_same x k e : set x k e x = k.
+Proof. unfold set. rewrite String.eqb_refl. reflexivity. Qed.
+Lemma set_other x k e y : y <> x -> set x k e y = e y.
+Proof. intro H. unfold set. apply String.eqb_neq in H. rewrite H. reflexivity. Qed.
+
+Lemma no_holder_set_empty x e : no_holder e -> no_holder (set x KEmpty e).
+Proof. intros H y. unfold set. destruct (String.eqb y x); auto. Qed.
+Lemma one_holder_of_none e : no_holder e -> one_holder e.
+Proof. intros H x y Hx. rewrite H in Hx. discriminate. Qed.
+Lemma one_holder_set_empty x e : one_holder e -> one_holder (set x KEmpty e).
+Proof.
+  intros H a b Ha Hb. unfold set in *. destruct (String.eqb a x); [discriminate|]. destruct (String.eqb b x); [discriminate|]. auto.
+Qed.
+Lemma assign_one_holder x e : no_holder e -> one_holder (set x KSrc e).
+Proof.
+  intros H a b Ha Hb. unfold set in *.
+  destruct (String.eqb a x) eqn:Ea; [|rewrite H in Ha; discriminate].
+  destruct (String.eqb b x) eqn:Eb; [|rewrite H in Hb; discriminate].
+  apply String.eqb_eq in Ea, Eb. congruence.
+Qed.
+Lemma swap_no_holder x y e : no_holder e -> no_holder (set x (lookup y e) (set y (lookup x e) e)).
+Proof. intros H z. unfold set, lookup. rewrite !H. destruct (String.eqb z x), (String.eqb z y); auto. Qed.
+Lemma swap_one_holder x y e : one_holder e -> one_holder (set x (lookup y e) (set y (lookup x e) e)).
+Proof.
+  intros H a b Ha Hb. unfold set, lookup in *.
+  destruct (String.eqb a x) eqn:Ax, (String.eqb b x) eqn:Bx;
+    try (apply String.eqb_eq in Ax); try (apply String.eqb_eq in Bx); subst.
+  - reflexivity.
+  - destruct (String.eqb b y) eqn:By.
+    + apply String.eqb_eq in By. subst b. pose proof (H _ _ Ha Hb) as E. subst. rewrite String.eqb_refl in Bx. discriminate.
+    + pose proof (H _ _ Ha Hb) as E. subst. rewrite String.eqb_refl in By. discriminate.
+  - destruct (String.eqb a y) eqn:Ay.
+    + apply String.eqb_eq in Ay. subst a. pose proof (H _ _ Ha Hb) as E. subst. rewrite String.eqb_refl in Ax. discriminate.
+    + pose proof (H _ _ Ha Hb) as E. subst. rewrite String.eqb_refl in Ay. discriminate.
+  - destruct (String.eqb a y) eqn:Ay, (String.eqb b y) eqn:By;
+      try (apply String.eqb_eq in Ay); try (apply String.eqb_eq in By); subst; auto.
+    + pose proof (H _ _ Ha Hb) as E. subst. rewrite String.eqb_refl in Bx. discriminate.
+    + pose proof (H _ _ Ha Hb) as E. subst. rewrite String.eqb_refl in Ax. discriminate.
+Qed.
+
+Lemma src_count_app a b : src_count (a ++ b) = (src_count a + src_count b)%nat.
+Proof. unfold src_count. rewrite filter_app, app_length. reflexivity. Qed.
+
+(* phase 3: nobody holds the id and it will not be assigned again: nothing is emitted with it *)
+Lemma run_no_holder p : forall e,
+  forallb (fun o => negb (is_copy o)) p = true -> n_assign p = O -> no_holder e -> src_count (run p e) = O.
+Proof.
+  induction p as [|o r IH]; intros e Hc Ha He; [reflexivity|].
+  simpl in Hc. apply andb_true_iff in Hc. destruct Hc as [Ho Hc].
+  unfold n_assign in Ha. simpl in Ha.
+  destruct o; simpl in Ho; try discriminate; simpl in Ha; try discriminate; cbn [run step]; rewrite ?src_count_app.
+  - apply IH; auto. apply no_holder_set_empty; auto.
+  - apply IH; auto. apply no_holder_set_empty; auto.
+  - apply IH; auto. apply swap_no_holder; auto.
+  - unfold lookup. rewrite (He x). simpl. apply IH; auto. apply no_holder_set_empty; auto.
+  - simpl. apply IH; auto.
+Qed.
+(* phase 2: at most one variable holds it, no assignment left *)
+Lemma run_one_holder p : forall e,
+  forallb (fun o => negb (is_copy o)) p = true -> n_assign p = O -> one_holder e -> (src_count (run p e) <= 1)%nat.
+Proof.
+  induction p as [|o r IH]; intros e Hc Ha He; [cbv; lia|].
+  simpl in Hc. apply andb_true_iff in Hc. destruct Hc as [Ho Hc].
+  unfold n_assign in Ha. simpl in Ha.
+  destruct o; simpl in Ho; try discriminate; simpl in Ha; try discriminate; cbn [run step]; rewrite ?src_count_app.
+  - apply IH; auto. apply one_holder_set_empty; auto.
+  - apply IH; auto. apply one_holder_set_empty; auto.
+  - apply IH; auto. apply swap_one_holder; auto.
+  - unfold lookup. destruct (e x) eqn:Ex.
+    + (* the holder is moved into the tree: nobody holds the id afterwards *)
+      assert (N : no_holder (set x KEmpty e)).
+      { intro z. unfold set. destruct (String.eqb z x) eqn:Ez; [reflexivity|].
+        destruct (e z) eqn:Z; [|reflexivity]. pose proof (He _ _ Z Ex) as E. subst. rewrite String.eqb_refl in Ez. discriminate. }
+      rewrite (run_no_holder r _ Hc Ha N). simpl. lia.
+    + simpl. apply IH; auto. apply one_holder_set_empty; auto.
+  - simpl. apply IH; auto.
+Qed.
+(* phase 1: nobody holds it yet, at most one assignment to come *)
+Lemma run_copy_free p : forall e,
+  forallb (fun o => negb (is_copy o)) p = true -> (n_assign p <= 1)%nat -> no_holder e -> (src_count (run p e) <= 1)%nat.
+Proof.
+  induction p as [|o r IH]; intros e Hc Ha He; [cbv; lia|].
+  simpl in Hc. apply andb_true_iff in Hc. destruct Hc as [Ho Hc].
+  unfold n_assign in Ha. simpl in Ha.
+  destruct o; simpl in Ho; try discriminate; simpl in Ha; cbn [run step]; rewrite ?src_count_app.
+  - apply IH; auto. apply no_holder_set_empty; auto.
+  - apply run_one_holder; auto; [unfold n_assign; lia|]. apply assign_one_holder; auto.
+  - apply IH; auto. apply no_holder_set_empty; auto.
+  - apply IH; auto. apply swap_no_holder; auto.
+  - unfold lookup. rewrite (He x). simpl. apply IH; auto. apply no_holder_set_empty; auto.
+  - simpl. apply IH; auto.
+Qed.
+
+Theorem copy_free_at_most_once p :
+  copy_free p = true -> (src_count (run p (fun _ => KEmpty)) <= 1)%nat.
+Proof.
+  unfold copy_free. intro H. apply andb_true_iff in H. destruct H as [H1 H2]. apply Nat.leb_le in H2.
+  apply run_copy_free; auto. intro x. reflexivity.
+Qed.
+
+(* the image programs of the generated table are instances (they introduce every variable they use, so the starting
+   environment does not matter); the other sites copy (path.clone(), text.id.clone()) or assign twice (use: clip group + use group) *)
+Lemma table_instances :
+  forallb (fun np => implb (prefix "image::" (fst np))
+                       (copy_free (snd np) &&
+                        Nat.eqb (src_count (run (snd np) (fun _ => KEmpty))) (src_count (emitted (snd np))))) id_programs = true /\
+  existsb (fun np => prefix "image::" (fst np)) id_programs = true.
+Proof. vm_compute. split; reflexivity. Qed.
